@@ -110,7 +110,7 @@ theorem C09_appendAll_vec (items : List Bytes) : ∀ (n : Nat) (body : Bytes),
     have h1 : n + 1 ≤ maxU32 := by omega
     have := ih (n + 1) (body ++ i) (by omega)
     simp only [appendAll, List.foldl_cons] at this ⊢
-    rw [C09_append_bump n body i h1, this]
+    rw [C09_append_bump n body i h1, List.append_assoc, this]
     simp only [List.length_cons, List.flatten_cons, List.append_assoc]
     congr 2; omega
 
